@@ -425,8 +425,14 @@ func (c *rctx) x(v ssa.Value) string {
 	case *ssa.Field:
 		return c.x(v.X) + "." + fieldName(v.X.Type(), v.Field)
 	case *ssa.IndexAddr:
+		if lit, ok := c.arrayLit(v.X); ok {
+			return lit + "[" + c.x(v.Index) + "]"
+		}
 		return c.x(v.X) + "[" + c.x(v.Index) + "]"
 	case *ssa.Index:
+		if lit, ok := c.arrayLit(v.X); ok {
+			return lit + "[" + c.x(v.Index) + "]"
+		}
 		return c.x(v.X) + "[" + c.x(v.Index) + "]"
 	case *ssa.Lookup:
 		return c.x(v.X) + "[" + c.x(v.Index) + "]"
@@ -935,6 +941,10 @@ func (e *Eng) condLit(fn *ssa.Function, v ssa.Value, inline bool) Lit {
 		case token.LEQ: // x <= y == !(y < x)
 			x, y, op, pos = y, x, token.LSS, !pos
 		}
+		// a.Compare(b) against -1 / 0 / 1 is a time order test
+		if l, ok := timeCompareLit(c, x, y, op, pos); ok {
+			return l
+		}
 		if op == token.EQL {
 			// select case?
 			if ex, ok := x.(*ssa.Extract); ok && ex.Index == 0 {
@@ -1040,4 +1050,120 @@ func isContextType(t types.Type) bool {
 	}
 	o := n.Obj()
 	return o != nil && o.Pkg() != nil && o.Pkg().Path() == "context" && o.Name() == "Context"
+}
+
+// timeCompareLit: "a.Compare(b) op k" (op already reduced to == or <, either side the call) as the order test it
+// stands for, in the same form Before/After/Equal are rendered in.
+func timeCompareLit(c *rctx, x, y ssa.Value, op token.Token, pos bool) (Lit, bool) {
+	cmpOf := func(v ssa.Value) (a, b string, ok bool) {
+		call, isC := v.(*ssa.Call)
+		if !isC || calleeName(&call.Call) != "(time.Time).Compare" || len(call.Call.Args) != 2 {
+			return "", "", false
+		}
+		return c.x(call.Call.Args[0]), c.x(call.Call.Args[1]), true
+	}
+	konst := func(v ssa.Value) (int64, bool) {
+		k, ok := v.(*ssa.Const)
+		if !ok || k.Value == nil || k.Value.Kind() != constant.Int {
+			return 0, false
+		}
+		i, exact := constant.Int64Val(k.Value)
+		return i, exact
+	}
+	before := func(a, b string, p bool) Lit { return Lit{Atom: "(" + a + " <t " + b + ")", Pos: p} }
+	equal := func(a, b string, p bool) Lit {
+		if a > b {
+			a, b = b, a
+		}
+		return Lit{Atom: "(" + a + " ==t " + b + ")", Pos: p}
+	}
+	if a, b, ok := cmpOf(x); ok {
+		k, isK := konst(y)
+		if !isK {
+			return Lit{}, false
+		}
+		switch {
+		case op == token.LSS && k == 0: // cmp < 0
+			return before(a, b, pos), true
+		case op == token.LSS && k == 1: // cmp < 1  ==  ¬(b < a)
+			return before(b, a, !pos), true
+		case op == token.EQL && k == 0:
+			return equal(a, b, pos), true
+		case op == token.EQL && k == -1:
+			return before(a, b, pos), true
+		case op == token.EQL && k == 1:
+			return before(b, a, pos), true
+		}
+	}
+	if a, b, ok := cmpOf(y); ok {
+		k, isK := konst(x)
+		if !isK {
+			return Lit{}, false
+		}
+		switch {
+		case op == token.LSS && k == 0: // 0 < cmp
+			return before(b, a, pos), true
+		case op == token.LSS && k == -1: // -1 < cmp  ==  ¬(a < b)
+			return before(a, b, !pos), true
+		case op == token.EQL && k == 0:
+			return equal(a, b, pos), true
+		case op == token.EQL && k == -1:
+			return before(a, b, pos), true
+		case op == token.EQL && k == 1:
+			return before(b, a, pos), true
+		}
+	}
+	return Lit{}, false
+}
+
+// arrayLit: v is (the address or the value of) a local array literal whose elements are each set once at a constant
+// index and which is otherwise only read: "[...]T{a, b}".  Rendered like a slice literal, "[a, b]".
+func (c *rctx) arrayLit(v ssa.Value) (string, bool) {
+	if u, ok := v.(*ssa.UnOp); ok && u.Op == token.MUL {
+		v = u.X
+	}
+	al, ok := v.(*ssa.Alloc)
+	if !ok || al.Comment != "complit" {
+		return "", false
+	}
+	arr, ok := al.Type().(*types.Pointer).Elem().Underlying().(*types.Array)
+	if !ok || arr.Len() == 0 || arr.Len() > 8 {
+		return "", false
+	}
+	els := make([]ssa.Value, arr.Len())
+	for _, r := range *al.Referrers() {
+		switch x := r.(type) {
+		case *ssa.IndexAddr:
+			k, isK := x.Index.(*ssa.Const)
+			for _, r2 := range *x.Referrers() {
+				if st, ok := r2.(*ssa.Store); ok && st.Addr == ssa.Value(x) {
+					if !isK || k.Value == nil {
+						return "", false // written at a computed index
+					}
+					i := k.Int64()
+					if i < 0 || i >= arr.Len() || els[i] != nil {
+						return "", false
+					}
+					els[i] = st.Val
+				}
+			}
+		case *ssa.UnOp, *ssa.DebugRef:
+		case *ssa.Store:
+			if x.Addr == ssa.Value(al) {
+				return "", false // assigned as a whole
+			}
+		default:
+			if _, isCall := r.(ssa.CallInstruction); isCall {
+				return "", false // escapes
+			}
+		}
+	}
+	var xs []string
+	for _, el := range els {
+		if el == nil {
+			return "", false
+		}
+		xs = append(xs, c.x(el))
+	}
+	return "[" + strings.Join(xs, ", ") + "]", true
 }
